@@ -78,6 +78,17 @@ CLAIMED = {
              "lists/sets/dicts normalisation and template validators are not yet under contract. Known finding "
              "F-C12-b (pow2 returns str) is listed, not suppressed for other inputs.",
         ref="4.C12"),
+    "C16": dict(
+        text="(1) exhaustive: every entry of OPERATORS, COMPARISONS, BOOL_OPERATORS and of the node-dispatch table of "
+             "the real module is the operator/handler the language assigns to that AST class; (2) deductive: each "
+             "_eval_X (bin op, unary op, compare, bool op, if, attribute, subscript) returns exactly the table "
+             "operator applied to the sub-results, evaluates all operands once and left to right, maps TypeError to "
+             "TemplateEvalError, returns the subscriptions of everything it read; BaseTemplate.evaluate returns the "
+             "converted result or the default. Python's operators are uninterpreted symbols.",
+        note="Trusted: pyvc encoding, z3, the structural-induction hypothesis on _eval (used through its contract), "
+             "placeholder notifier side (events / DeviceMonitor). _eval_bool_op is bounded to 3 operands. Known "
+             "finding F-C16-a: item reads (machine['x']) are not subscribed.",
+        ref="4.C16"),
 }
 
 NA = {}
